@@ -48,7 +48,7 @@ def _job(args):
             plans += [('default', {'source_type': s}, s) for s in srcs]
         any_ok = False
         for vname, kw, src in plans:
-            for sname in (('walk1', 'spike', 'trend', 'saw') if not quick else ('walk1', 'spike')):
+            for sname in (('walk1', 'spike', 'trend', 'saw', 'notrade') if not quick else ('walk1', 'spike', 'notrade')):
                 for L in lengths:
                     c, c2 = st[sname][:L], st2[sname][:L]
                     case = {'indicator': name, 'variant': vname, 'params': kw, 'stem': sname, 'length': L}
